@@ -533,6 +533,72 @@ func calleeOf(info *types.Info, c *ast.CallExpr) *types.Func {
 	return fn
 }
 
+// exprInlineOK: the helper's body is "return <expr>" (one result, no named results) and receiver and arguments at this
+// call site are plain names / selector chains / literals (evaluating them once, twice or not at all makes no difference),
+// and the receiver's pointer-ness matches.
+func exprInlineOK(pk *packages.Package, h *helperInfo, s *siteInfo) bool {
+	if h.hasDefer || len(h.decl.Body.List) != 1 {
+		return false
+	}
+	ret, ok := h.decl.Body.List[0].(*ast.ReturnStmt)
+	if !ok || len(ret.Results) != 1 {
+		return false
+	}
+	sig := h.obj.Type().(*types.Signature)
+	if sig.Results().Len() != 1 || (h.decl.Type.Results.List[0].Names != nil) {
+		return false
+	}
+	// no function literal inside (its own returns / scopes)
+	hasLit := false
+	ast.Inspect(ret.Results[0], func(n ast.Node) bool {
+		if _, ok := n.(*ast.FuncLit); ok {
+			hasLit = true
+		}
+		return true
+	})
+	if hasLit {
+		return false
+	}
+	var simple func(e ast.Expr) bool
+	simple = func(e ast.Expr) bool {
+		switch x := ast.Unparen(e).(type) {
+		case *ast.Ident, *ast.BasicLit:
+			return true
+		case *ast.SelectorExpr:
+			return simple(x.X)
+		}
+		return false
+	}
+	for _, a := range s.call.Args {
+		if !simple(a) {
+			return false
+		}
+	}
+	if s.call.Ellipsis.IsValid() {
+		return false
+	}
+	if h.decl.Recv != nil && len(h.decl.Recv.List) > 0 {
+		sel, ok := ast.Unparen(s.call.Fun).(*ast.SelectorExpr)
+		if !ok || !simple(sel.X) {
+			return false
+		}
+		_, wantPtr := sig.Recv().Type().(*types.Pointer)
+		_, havePtr := pk.TypesInfo.TypeOf(sel.X).(*types.Pointer)
+		if wantPtr != havePtr {
+			return false
+		}
+	}
+	// parameter count must match the arguments (no unnamed parameters used)
+	n := 0
+	for _, fld := range h.decl.Type.Params.List {
+		if len(fld.Names) == 0 {
+			n++
+		}
+		n += len(fld.Names)
+	}
+	return n == len(s.call.Args)
+}
+
 var splicedName = regexp.MustCompile(`\b__i([0-9x]+)_`)
 
 // spliceSite builds the replacement of the statement that contains the call.
@@ -650,8 +716,14 @@ func spliceSite(pk *packages.Package, overlay map[string][]byte, h *helperInfo, 
 	if kind == "" || kind == "go" || kind == "defer" || (h.hasDefer && !tail) {
 		kind = "lit"
 	}
+	// a helper that is one expression ("return <expr>") called with plain names: substitute the expression in place,
+	// wherever the call stands (right operand of &&, loop condition, argument ...). Preferred over the statement forms
+	// for predicates: the result is exactly the expression the author factored out.
+	if exprInlineOK(pk, h, s) && kind != "go" && kind != "defer" {
+		kind = "exprinline"
+	}
 	// is the statement the Init of an if?
-	if kind == "lit" {
+	if kind == "lit" || kind == "exprinline" {
 		// nothing to check: the call expression itself is replaced
 	} else if is, ok := parent.(*ast.IfStmt); ok && is.Init == stmt {
 		if kind != "expr" && kind != "assign" && kind != "nested" {
@@ -679,7 +751,7 @@ func spliceSite(pk *packages.Package, overlay map[string][]byte, h *helperInfo, 
 	} else {
 		replaceNode = ifStmt
 	}
-	if _, isLabeled := parent.(*ast.LabeledStmt); isLabeled && kind != "lit" {
+	if _, isLabeled := parent.(*ast.LabeledStmt); isLabeled && kind != "lit" && kind != "exprinline" {
 		return textEdit{}, nil, "labeled statement"
 	}
 
@@ -753,6 +825,61 @@ func spliceSite(pk *packages.Package, overlay map[string][]byte, h *helperInfo, 
 			copy(patched[tr.at:tr.at+tr.n], []byte(tr.alias))
 		}
 		calleeSrc = patched
+	}
+
+	if kind == "exprinline" {
+		ret := h.decl.Body.List[0].(*ast.ReturnStmt)
+		expr := ret.Results[0]
+		// parameter / receiver objects -> argument text
+		subst := map[types.Object]string{}
+		if h.decl.Recv != nil && len(h.decl.Recv.List) > 0 && len(h.decl.Recv.List[0].Names) > 0 {
+			sel := ast.Unparen(s.call.Fun).(*ast.SelectorExpr)
+			if o := pk.TypesInfo.Defs[h.decl.Recv.List[0].Names[0]]; o != nil {
+				subst[o] = text(callerSrc, sel.X.Pos(), sel.X.End())
+			}
+		}
+		ai := 0
+		for _, fld := range h.decl.Type.Params.List {
+			for _, nm := range fld.Names {
+				if o := pk.TypesInfo.Defs[nm]; o != nil && ai < len(s.call.Args) {
+					subst[o] = text(callerSrc, s.call.Args[ai].Pos(), s.call.Args[ai].End())
+				}
+				ai++
+			}
+		}
+		type rep struct {
+			a, b int
+			t    string
+		}
+		var reps []rep
+		ast.Inspect(expr, func(nd ast.Node) bool {
+			if id, ok := nd.(*ast.Ident); ok {
+				if o := pk.TypesInfo.Uses[id]; o != nil {
+					if t, ok := subst[o]; ok {
+						reps = append(reps, rep{off(id.Pos()), off(id.End()), t})
+					}
+				}
+			}
+			return true
+		})
+		sort.Slice(reps, func(i, j int) bool { return reps[i].a < reps[j].a })
+		var eb strings.Builder
+		at := off(expr.Pos())
+		for _, rp := range reps {
+			eb.Write(calleeSrc[at:rp.a])
+			eb.WriteString(rp.t)
+			at = rp.b
+		}
+		eb.Write(calleeSrc[at:off(expr.End())])
+		callEnd := fset.Position(s.call.End())
+		// conversions to the declared result type keep the static type of the call
+		resT := text(calleeSrc, h.decl.Type.Results.List[0].Type.Pos(), h.decl.Type.Results.List[0].Type.End())
+		txt := "(" + resT + ")(" + strings.ReplaceAll(eb.String(), "\n", " ") + ")"
+		if _, isBasic := sig.Results().At(0).Type().(*types.Basic); isBasic {
+			txt = "(" + strings.ReplaceAll(eb.String(), "\n", " ") + ")"
+		}
+		txt += fmt.Sprintf("/*line %s:%d:%d*/", callEnd.Filename, callEnd.Line, callEnd.Column)
+		return textEdit{file: s.path, start: off(s.call.Pos()), end: off(s.call.End()), text: txt}, needImports, ""
 	}
 
 	if kind == "lit" {
